@@ -35,9 +35,12 @@ bool BuildInfoPlugin::ReviewLinkOutput(ConfigCompiler* compiler,
       timestamps[resource->resource_id] = 0;
       return;
     }
-    // TODO: store as 64-bit number to avoid the year 2038 problem
+    // stored as a 64-bit decimal number: truncating to int made modification
+    // times 2^32 seconds apart (or a multiple of 2^32, read as "0 = missing")
+    // indistinguishable
     timestamps[resource->resource_id] =
-        (int)filesystem::to_time_t(std::filesystem::last_write_time(file_path));
+        std::to_string(static_cast<long long>(filesystem::to_time_t(
+            std::filesystem::last_write_time(file_path))));
   });
 #endif
   return true;
